@@ -74,6 +74,18 @@ theorem from_show (t : Table) (S C : Nat) (h : t.WF S C) :
   obtain ⟨p, hp, hs⟩ := show_from t S C h
   exact ⟨p, t.text, p, hp, hs, hp, rfl⟩
 
+/-- a compiled table as the code holds it: keys strictly increasing (BTreeMap order), all keys
+    inside the S x C rectangle, entries printable -/
+def Prog.WFIn (p : Prog) (S C : Nat) : Prop :=
+  List.Pairwise (fun a b => slotLt a.1 b.1 = true) p ∧
+  ∀ kv ∈ p, kv.1.1 < S ∧ kv.1.2 < C ∧ CellOk (some kv.2)
+
+/-- **Compiled table → text → the same compiled table.** Printing an arbitrary compiled table with
+    its size and parsing the text gives back the same association list. -/
+theorem from_show_prog (p : Prog) (S C : Nat) (hS : 0 < S) (hC : 0 < C) (h : p.WFIn S C) :
+    ∃ s, p.showChars (some (S, C)) = .ok s ∧ Prog.fromChars s = .ok p :=
+  Parse.prog_roundtrip p S C CellOk (fun _ hc => hc) hS hC h
+
 /- Non-vacuity: a concrete 2x2 table. -/
 example : (Table.mk [[some (1, true, 1), none], [some (1, false, 0), some (0, true, 1)]]).WF 2 2 := by
   refine ⟨by decide, by decide, by decide, by decide, rfl, ?_⟩
@@ -83,5 +95,14 @@ example : (Table.mk [[some (1, true, 1), none], [some (1, false, 0), some (0, tr
 
 example : String.ofList (Table.mk [[some (1, true, 1), none], [some (1, false, 0), some (0, true, 1)]]).text
     = "1RB ...  1LA 0RB" := by decide
+
+/- Non-vacuity of `Prog.WFIn`: the program parsed from "1RB ...  1LA 0RB" is a compiled 2x2 table. -/
+example : ∃ p, Prog.fromStr "1RB ...  1LA 0RB" = .ok p ∧
+    p = [((0, 0), (1, true, 1)), ((1, 0), (1, false, 0)), ((1, 1), (0, true, 1))] ∧ p.WFIn 2 2 := by
+  refine ⟨[((0, 0), (1, true, 1)), ((1, 0), (1, false, 0)), ((1, 1), (0, true, 1))], by rfl, rfl, ?_⟩
+  refine ⟨by decide, ?_⟩
+  intro kv hkv
+  simp at hkv
+  rcases hkv with rfl | rfl | rfl <;> simp [CellOk]
 
 end BB
